@@ -184,7 +184,57 @@ def oracle_payload(c):
     return []
 
 
+# single-tract descriptions under sec_within: several unused blocks are re-attached around the one tract ---------------
+from props import c20 as _c20  # noqa: E402
+
+WITHIN_CASE = st.fixed_dictionaries({"w": _c20.WITHIN, "word": WORD, "pos": st.integers(0, 400),
+                                     "mode": st.sampled_from(["sec_within", "sec_within", "sec_within,segment", ""])})
+
+
+def within_text(c):
+    base = _c20.within_text(c["w"])
+    pts = boundaries(base)
+    p = pts[c["pos"] % len(pts)]
+    left, right = base[:p], base[p:]
+    ins = c["word"]
+    if left and not left[-1].isspace():
+        ins = " " + ins
+    if right and not right[0].isspace():
+        ins = ins + " "
+    return left + ins + right
+
+
+def oracle_within(c):
+    text = within_text(c)
+    before = text[:text.index(c["word"])].rstrip(" \t\n.-–—,;|_~")
+    if before and before[-1].isdigit() and c["word"][0].lower() in "nsew":
+        note_excluded("word_starting_nsew_directly_after_a_number")
+        return []
+    d = parse(text, c["mode"])
+    in_tract, in_flag = where(d, c["word"])
+    _last["landing"] = "tract" if in_tract else ("flag" if in_flag else "lost")
+    fails = []
+    if not in_tract and not in_flag:
+        stage = "preprocess" if c["word"] not in d.pp_desc else "parse"
+        fails.append(Failure(f"word_dropped:{stage}", f"{c['word']!r} in {text!r} [{c['mode']}] is in no tract description and no unused_desc flag",
+                             text=text, mode=c["mode"], tracts=[(t.trs, t.desc) for t in d.tracts], e_flags=list(d.e_flags)))
+    # the known payload (leading / trailing texts) must survive as well
+    for part in (c["w"]["lead"], c["w"]["trail"]) + ((c["w"]["trail2"],) if c["w"]["place"] in ("between_and_after", "before_and_after") else ()):
+        for w in re.findall(r"[A-Za-z]{5,}", part):
+            if admissible(w):
+                a, b = where(d, w)
+                if not a and not b:
+                    fails.append(Failure("payload_dropped", f"{text!r} [{c['mode']}]: {w!r} is in no tract description and no unused_desc flag",
+                                         text=text, mode=c["mode"], tracts=[(t.trs, t.desc) for t in d.tracts], e_flags=list(d.e_flags)))
+                    return fails
+    return fails
+
+
 SUBS = [
+    Sub("sec_within_single", oracle_within, strategy=lambda tier: WITHIN_CASE, validate=lambda c: admissible(c["word"]) and _c20.validate_within(c["w"]),
+        nontrivial=lambda c: True, classes=lambda c: [f"mode={c['mode']}", f"place={c['w']['place']}", f"landing={_last.get('landing')}"],
+        render=lambda c: {"text": within_text(c), "word": c["word"], "mode": c["mode"]},
+        n={"quick": 500, "thorough": 8000}, shards={"quick": 4, "thorough": 16}),
     Sub("foreign_word", oracle, strategy=lambda tier: CASE, validate=validate, nontrivial=nontrivial, classes=classes, render=render,
         n={"quick": 1200, "thorough": 20000}, shards={"quick": 10, "thorough": 16},
         essential=tuple(f"mode={m}" for m in MODES) + ("landing=flag", "landing=tract", "damaged", "word=deed", "word=random")),
